@@ -118,6 +118,10 @@ def model(case: dict) -> dict:
                     # persistent callbacks (independent of the pending future)
                     if k == "connect" and s["cb_on"] and mk == "conn" and ma == o["addr"]:
                         s["cb"].append([bool(m["connected"]), m.get("mtu", 0), m.get("error", 0)])
+                        if o.get("unsub_on_drop") and not m["connected"] and s["status"] == "ok" and s["t_end"] is not None and s["t_end"] < t:
+                            # the application's state callback unsubscribes itself when told the device dropped (the
+                            # function it got back from the finished connect call): nothing more for it, nobody else disturbed
+                            s["cb_on"] = False
                     if k == "notify" and s["data_on"] and mk == "data" and ma == o["addr"] and mh == o["handle"]:
                         s["cb"].append(m.get("data", ""))
                     if not s["pending"]:
@@ -226,8 +230,16 @@ def start_op(cli, o: dict, rec: dict):
         return cli.bluetooth_gatt_start_notify(a, h, lambda hh, data: rec["cb"].append(bytes(data).hex()) if hh == h else rec["cb"].append(f"WRONG-HANDLE-{hh}"), timeout=to)
     if k == "connect":
         fl = o.get("flavour", "v1")
+        def on_state(c, mtu, err):
+            rec["cb"].append([c, mtu, err])
+            if o.get("unsub_on_drop") and not c and not rec.get("unsubbed"):
+                r = rec["results"].get(o["id"])
+                if r and r[0] == "ok":
+                    rec["unsubbed"] = True
+                    r[1]()
+
         return cli.bluetooth_device_connect(
-            a, lambda c, mtu, err: rec["cb"].append([c, mtu, err]), timeout=to, disconnect_timeout=float(o["dtimeout"]),
+            a, on_state, timeout=to, disconnect_timeout=float(o["dtimeout"]),
             feature_flags=(1 << 2) if fl == "v3nocache" else 0, has_cache=(fl == "v3cache"), address_type=o.get("address_type"))
     if k == "disconnect":
         return cli.bluetooth_device_disconnect(a, timeout=to)
@@ -286,7 +298,7 @@ def run_case(case: dict) -> CaseResult:
     res = CaseResult()
     s = Session(noise=bool(case.get("noise")), keepalive=K_KEEPALIVE, auto=set())
     env = s.env
-    recs: dict[str, dict] = {o["id"]: {"cb": []} for o in case["ops"]}
+    recs: dict[str, dict] = {o["id"]: {"cb": [], "results": env.results} for o in case["ops"]}
     M = model(case)
     t_last = max([o["t"] * G + (30.0 if o["kind"] == "services" else float(o.get("timeout", 2))) + float(o.get("dtimeout", 0)) for o in case["ops"]] + [c["t"] * G for c in case["chunks"]] + [0]) + 1.0
     base = {}
@@ -452,6 +464,8 @@ def _case(draw, tier):
             o["dtimeout"] = draw(st.sampled_from([1, 2]))
             o["flavour"] = draw(st.sampled_from(["v1", "v3cache", "v3nocache"]))
             o["address_type"] = draw(st.sampled_from([None, 0, 1]))
+            if draw(st.booleans()):
+                o["unsub_on_drop"] = True
         ops.append(o)
     horizon = max(o["t"] for o in ops) + 128 * 5
     chunks = []
@@ -547,6 +561,17 @@ def enumerated(tier):
                 yield {"noise": False, "ops": [base], "chunks": [{"t": 9, "msgs": [mm]}]}
                 # the same message followed, in the same chunk, by a connection change for the address
                 yield {"noise": handle == 2, "ops": [base], "chunks": [{"t": 9, "msgs": [mm, {"k": "conn", "addr": A, "connected": False, "mtu": 0, "error": 19}]}]}
+    # an established device connection whose state callback unsubscribes itself when the device drops, while n GATT
+    # calls on that address (and one on another address) are pending: each of them gets its own outcome
+    for n in (1, 2, 5):
+        for noise in (False, True):
+            conn = {"id": "op0", "kind": "connect", "addr": A, "t": 2, "timeout": 2, "dtimeout": 2, "flavour": "v3cache", "address_type": None, "unsub_on_drop": True}
+            gatt = [{"id": f"op{1 + i}", "kind": ("read", "write", "notify", "read_desc", "write_desc")[i % 5], "addr": A, "handle": 1 + i % 2, "t": 40 + 2 * i, "timeout": 3, "response": True, "end": "stop"} for i in range(n)]
+            other = {"id": "op9", "kind": "read", "addr": B, "handle": 1, "t": 40, "timeout": 3}
+            yield {"noise": noise, "ops": [conn] + gatt + [other], "chunks": [
+                {"t": 10, "msgs": [{"k": "conn", "addr": A, "connected": True, "mtu": 23, "error": 0}]},
+                {"t": 80, "msgs": [{"k": "conn", "addr": A, "connected": False, "mtu": 0, "error": 8}, {"k": "read", "addr": B, "handle": 1, "data": "0a"}]},
+                {"t": 100, "msgs": [{"k": "conn", "addr": A, "connected": False, "mtu": 0, "error": 8}]}]}
     # connect timeout phase 2: disconnect answered / not answered / answered for the other address
     for second in (None, {"k": "conn", "addr": A, "connected": False}, {"k": "conn", "addr": B, "connected": False}, {"k": "conn", "addr": A, "connected": True}):
         for fl in ("v1", "v3cache", "v3nocache"):
